@@ -677,7 +677,7 @@ type decision struct {
 
 func (w *cworld) concCase(h int, kind string, thorough bool, enum bool, script []int) []decision {
 	r := w.r
-	nLogs := map[string]int{"aar": 1, "ja": 2, "cross": 2, "cycle3": 3, "jtrim": 3, "jdeny": 2}[strings.TrimPrefix(kind, "e-")]
+	nLogs := map[string]int{"aar": 1, "ja": 2, "cross": 2, "cycle3": 3, "jtrim": 3, "jdeny": 2, "jlag": 3}[strings.TrimPrefix(kind, "e-")]
 	var logs []*ipfslog.IPFSLog
 	for i := 0; i < nLogs; i++ {
 		ident := w.ids.Identity(fmt.Sprintf("w%d", i))
@@ -719,6 +719,14 @@ func (w *cworld) concCase(h int, kind string, thorough bool, enum bool, script [
 		// both hold something
 		for i := 1; i < 3; i++ {
 			add("append", i, -1, pcs[r.Intn(len(pcs))], true)
+		}
+	}
+	if kind == "jlag" {
+		// log 2 follows log 0 and then falls behind by several entries: its head is an old ancestor
+		add("append", 0, -1, 1, true)
+		add("join", 2, 0, -1, true)
+		for k := 2 + r.Intn(3); k > 0; k-- {
+			add("append", 0, -1, pcs[r.Intn(len(pcs))], true)
 		}
 	}
 	if enum {
@@ -808,6 +816,21 @@ func (w *cworld) concCase(h int, kind string, thorough bool, enum bool, script [
 			add("joinr", 0, 1, -1, false)
 		}
 		extraReaders(2 + r.Intn(2))
+	case "jlag":
+		// one log merges, at the same time, an up-to-date log (several chained entries admitted at once) and
+		// a lagging one whose head it then already holds; both sources may be appended to meanwhile
+		add("join", 1, 0, -1, false)
+		add("join", 1, 2, -1, false)
+		if r.Intn(2) == 0 {
+			add("append", 0, -1, 1, false)
+		}
+		if r.Intn(3) == 0 {
+			add("append", 2, -1, 1, false)
+		}
+		if r.Intn(3) == 0 {
+			add("join", 1, 2, -1, false)
+		}
+		extraReaders(1 + r.Intn(2))
 	case "jtrim":
 		// a merge from a log that is being size-bounded (trimmed) by another merge at the same time:
 		// between the two reads of the source its head may vanish from its entries
@@ -950,7 +973,7 @@ func noteOr(s string) string {
 func runConc(seed int64, n int, out *bufio.Writer, thorough bool) *concStats {
 	st := &concStats{Scenarios: map[string]int{}, OpKinds: map[string]int{}, PreemptHist: map[string]int{},
 		ThreadsHist: map[string]int{}, seen: map[string]bool{}, EnumByScenario: map[string]int{}}
-	kinds := []string{"aar", "ja", "cross", "cycle3", "jtrim", "jdeny"}
+	kinds := []string{"aar", "ja", "cross", "cycle3", "jtrim", "jdeny", "jlag"}
 	for h := 0; h < n; h++ {
 		if skipCase(h) {
 			continue
